@@ -13,9 +13,31 @@ def decode(p):
     f = p.split(" ", 2)
     try:
         return {"source": bytes.fromhex(f[0]).decode("utf8", "replace") if f[0] != "-" else "",
-                "evaluated": f[1] == "1", "ast_fields": len(f[2].split(" "))}
+                "evaluated": f[1] in ("1", "3"), "format_tool_run": f[1] in ("2", "3"), "ast_fields": len(f[2].split(" "))}
     except Exception:
         return p[:200]
+
+
+def _strip_parens(hex_txt):
+    if hex_txt == "-":
+        return b""
+    try:
+        return bytes.fromhex(hex_txt).replace(b"(", b"").replace(b")", b"")
+    except ValueError:
+        return hex_txt.encode()
+
+
+def equal(g, m, attrs):
+    """Result lines agree if every verdict agrees and the printed texts are equal — or differ only in parentheses
+    (string literals are canonicalised on both sides, so no parenthesis is inside a literal). Which redundant
+    parentheses the printer writes is not constrained by the property; whether they are SUFFICIENT is decided by
+    Go's own re-parse (rt) and by the sufficiency fact about the extracted rule."""
+    if g == m:
+        return True
+    gf, mf = g.split(" "), m.split(" ")
+    if len(gf) != len(mf) or not gf[0].startswith("txt=") or not mf[0].startswith("txt=") or gf[1:] != mf[1:]:
+        return False
+    return _strip_parens(gf[0][4:]) == _strip_parens(mf[0][4:])
 
 
 def extract(ctx):
@@ -59,6 +81,7 @@ SPEC = dict(
     lean_modules=["Ecal.Props.C08"],
     shards=16,
     extract=extract,
+    equal=equal,
     post=post,
     rule=("cases = sources the real parser accepts, handed to the model as the AST the real parser built: corpus of past "
           "failures; every infix operator (20) / prefix operator (3) under every other on either side with and without "
